@@ -67,6 +67,15 @@ def gen_constants():
         problems.append(f"topic naming is not prefix+name+suffix: {i1!r} {o1!r} {i2!r} {o2!r}")
         a = a or ("", i1)
         b = b or ("", o1)
+    # the model assumes topic = prefix + name + suffix for EVERY non-empty name: probe tricky names
+    for nm in ("a", "a ", " a", "a\n", "\ta", "A", "a-in", "a-out", "tickit-a", "é", "a b", "-", "0"):
+        try:
+            ti, to = input_topic(nm), output_topic(nm)
+        except Exception as e:
+            problems.append(f"topic naming rejects the non-empty name {nm!r}: {type(e).__name__}")
+            continue
+        if a is not None and b is not None and (ti != a[0] + nm + a[1] or to != b[0] + nm + b[1]):
+            problems.append(f"topic naming is not prefix+name+suffix for {nm!r}: {ti!r} / {to!r}")
     # pseudo components: observe what NestedScheduler adds to an empty wiring
     pseudo_ext, pseudo_exp = "external", "expose"
     try:
@@ -126,6 +135,13 @@ def gen_constants():
 
 def lake(args, timeout=1500):
     return subprocess.run(["lake"] + args, cwd=LEAN, capture_output=True, text=True, timeout=timeout)
+
+
+def leanchecker(modules, timeout=1200):
+    """independent re-check of the compiled .olean files (thorough tier)"""
+    with FileLock("lake.lock"):
+        r = subprocess.run(["lake", "env", "leanchecker"] + list(modules), cwd=LEAN, capture_output=True, text=True, timeout=timeout)
+    return r.returncode, (r.stdout + r.stderr)[-400:]
 
 
 def build_and_audit(modules, theorems, need_driver=True):
